@@ -189,7 +189,7 @@ func argMatches(c hx.Col, r int, v driver.Value) bool {
 }
 
 var simpleNames = []string{"a", "b", "c", "col1", "Col2", "x_y", "id", "value", "pct%", "%d", "100%s"}
-var quotedNames = []string{"a", "b c", "Col 2", "ä", "x,y", "a(b)", "sel;ect", "1$", "?", "tab\tname", "e", "100%", "a %d b", "%s", "%!v"}
+var quotedNames = []string{"a", "b c", "Col 2", "ä", "x,y", "a(b)", "sel;ect", "1$", "?", "tab\tname", "e", "100%", "a %d b", "%s", "%!v", "main.t", "v1.2 data", "a.b.c", "."}
 
 func TestC19(t *testing.T) {
 	rapid.Check(t, func(t *rapid.T) {
